@@ -21,7 +21,7 @@ func init() {
 		ID: "C11", Level: "exploration", Primary: "states", EvalCount: "stops",
 		Rule: "liveness restated as bounded progress: Stop must return within B=10s (an order of magnitude above what a correct implementation needs) WITHOUT any client action, and Run must then return nil. " +
 			"One evaluation = a fresh server brought into a connection state (none; 1/8/64 idle; half a frame sent; TLS listener with no / partial ClientHello; StartTLS-upgraded idle; StartTLS answered but handshake never started; busy pipelining; clients not reading " +
-			"large responses so that handlers block in Write - alone and combined ON THE SAME CONNECTION with an Unbind, a half-close, a pending StartTLS handshake or half a frame; all of them together) x optional concurrent second Stop, then Stop is called; plus Stop racing Run's start-up with no client at all (Run parked at its own log statements through the user-supplied logger, and random microsecond offsets), a connection with a history of 150 recovered handler panics, and idle connections left over by a PRNG-chosen history of 4..20 connections coming and going. If B expires the harness dumps goroutines and lets the clients go: a Stop parked in " +
+			"large responses so that handlers block in Write (60KB frames that block in the write, 300-byte frames from two handlers that block in the flush, and a server configured with a 10-minute write timeout) - alone and combined ON THE SAME CONNECTION with an Unbind, a half-close, a pending StartTLS handshake or half a frame; all of them together) x optional concurrent second Stop, then Stop is called; plus Stop racing Run's start-up with no client at all (Run parked at its own log statements through the user-supplied logger, and random microsecond offsets), a connection with a history of 150 recovered handler panics, and idle connections left over by a PRNG-chosen history of 4..20 connections coming and going. If B expires the harness dumps goroutines and lets the clients go: a Stop parked in " +
 			"WaitGroup.Wait with a gldap connection goroutine parked in network I/O, released only when the clients close, is a violation; anything else is inconclusive. " +
 			"distinct_nontrivial = distinct (state, #connections, second-Stop) triples with at least one connection open at Stop time",
 		Assume: []string{"handlers that block in application code (not in gldap's Write) are outside the statement: the workload's handlers only ever block inside ResponseWriter.Write"},
@@ -133,7 +133,7 @@ func c11Run(c *Ctx) {
 		c11Startup(c, pki, "", i%2 == 0, i, c.Rng.Sub(fmt.Sprintf("su%d", i)))
 	}
 	states := []string{"none", "idle", "half-frame", "tls-no-hello", "tls-partial-hello", "starttls-idle", "starttls-pending", "busy-pipelining", "not-reading",
-		"not-reading+unbind", "not-reading+half-close", "not-reading+starttls-pending", "not-reading+half-frame", "after-panic-storm", "mixed"}
+		"not-reading+unbind", "not-reading+half-close", "not-reading+starttls-pending", "not-reading+half-frame", "not-reading+long-write-timeout", "not-reading+small-frames-two-handlers", "after-panic-storm", "mixed"}
 	counts := []int{1, 8}
 	reps := 1
 	if !c.Quick() {
@@ -165,13 +165,31 @@ func c11One(c *Ctx, pki *PKI, st c11State) {
 		stc = pki.ServerOnly
 	}
 	blob := strings.Repeat("y", 60000)
-	srv, err := startSrv(SrvCfg{TLS: stc}, func(m *gldap.Mux) {
+	var wt time.Duration
+	if st.Name == "not-reading+long-write-timeout" {
+		wt = 10 * time.Minute // a configured write timeout far beyond any bound Stop could have
+	}
+	small := strings.Repeat("s", 300)
+	srv, err := startSrv(SrvCfg{TLS: stc, WriteTimeout: wt}, func(m *gldap.Mux) {
 		m.Search(func(w *gldap.ResponseWriter, r *gldap.Request) {
 			inHandlers.Add(1)
 			defer inHandlers.Add(-1)
 			s, _ := r.GetSearchMessage()
 			if s.BaseDN == "panic" {
 				panic("injected handler panic (C11)")
+			}
+			if s.BaseDN == "small" {
+				// frames far below the buffered writer's size: they block in the flush, not in the write
+				for i := 0; i < 400000; i++ {
+					e := r.NewSearchResponseEntry("cn=e")
+					e.AddAttribute("b", []string{small})
+					blockedWrites.Add(1)
+					err := w.Write(e)
+					blockedWrites.Add(-1)
+					if err != nil {
+						return
+					}
+				}
 			}
 			if s.BaseDN == "big" {
 				for i := 0; i < 400; i++ {
@@ -256,8 +274,10 @@ func c11One(c *Ctx, pki *PKI, st c11State) {
 					}
 				}
 			}()
-		case "not-reading":
+		case "not-reading", "not-reading+long-write-timeout":
 			cn.Write(search(1, "big"))
+		case "not-reading+small-frames-two-handlers":
+			cn.Write(append(search(1, "small"), search(2, "small")...))
 		case "after-panic-storm":
 			// a history of many recovered handler panics on this connection, then an ordinary request, then idle
 			var buf []byte
